@@ -1,7 +1,344 @@
-(* C09 - signed exchanges; placeholder until the proofs land. *)
-From WP Require Import Base.Prelude Model.Sxg.
+(* C09 - Verification succeeds if and only if, besides a valid signature and
+   payload integrity, every acceptance condition of the spec holds: validity URL
+   same-origin with the request URL, date <= now <= expires, lifetime at most 7
+   days, integrity scheme matching the version, GET/HEAD and no stateful request
+   header (b1/b2), Content-Type present and response storable by a shared cache
+   (b3), and no uncached or stateful response header in any letter case.  No
+   exchange violating a condition is accepted and none satisfying all of them is
+   rejected.
+
+   The conditions are the predicate [Accepts] of Spec/SxgPolicy.v (a flat
+   conjunction transcribed from the drafts and RFC 7234, independent of the
+   verifier's control flow).  The equivalence is stated where the URL model
+   decides (no UUnknown among the URLs involved) for untainted exchanges; there
+   Verify never answers Undecided.
+
+   Deviations found (stated and proved below):
+   - C09_b3_request_headers_refuted: a b3 exchange that carries request headers
+     in memory (nothing of a b3 request is serialised or signed) is REJECTED if
+     one of them is stateful, although every condition of the spec holds.
+     verify_iff therefore assumes [wf_req]: a b3 exchange has no request
+     headers (true of everything ReadExchange returns).
+   - no_cache_listed_header_accepted: 4.1 also bans header fields listed in a
+     no-cache="..." response directive; the Go code (TODO in the source) and so
+     the model accept them.  [Accepts] has no such clause.                       *)
+From Coq Require Import Lia Permutation.
+From WP Require Import Base.Prelude Base.Sha256 Model.Cbor Model.Http Model.Url Model.Mice
+                       Model.StructHdr Model.CertChain Model.Sxg.
+From WP Require Import Spec.SxgPolicy.
+From WP Require Import Proofs.SxgVerifyMsg Proofs.SxgVerifySound Proofs.SxgVerifyPolicy
+                       Proofs.SxgVerifyExample.
 Open Scope N_scope.
 
-Theorem c09_smoke : from_magic (header_magic V1b3) = Some V1b3.
+(* ---- the equivalence --------------------------------------------------------------- *)
+Section C09.
+  Variable H256 : bytes -> bytes.
+  Variable x509_key : bytes -> option (option N).
+  Variable sig_ok : N -> bytes -> bytes -> bool.
+  Variable status_known : Z -> bool.
+  Variable fetch : bytes -> R bytes.
+
+  Notation vfy := (verify H256 x509_key sig_ok status_known fetch).
+  Notation Accepts := (Accepts H256 x509_key sig_ok status_known fetch).
+
+  (* Valid p  iff  the first acceptable signature of the header yields p *)
+  Theorem C09_verify_iff :
+    forall (e : exchange) (tsec tnsec : Z) (p : bytes),
+      e_taint e = false -> wf_req e -> time_ok tsec tnsec -> decided e ->
+      (vfy e tsec tnsec = Valid p <->
+       exists sigs pre pi post s,
+         parse_parameterised_list (e_sig e) = Ok sigs /\ sigs = pre ++ pi :: post /\
+         extract_signature pi = Some s /\ Accepts e tsec tnsec s p /\
+         (forall pj sj q, In pj pre -> extract_signature pj = Some sj -> ~ Accepts e tsec tnsec sj q)).
+  Proof. exact (verify_iff H256 x509_key sig_ok status_known fetch). Qed.
+
+  (* Invalid  iff  no signature of the header is acceptable (in particular when
+     the header does not parse) *)
+  Theorem C09_verify_invalid_iff :
+    forall (e : exchange) (tsec tnsec : Z),
+      e_taint e = false -> wf_req e -> time_ok tsec tnsec -> decided e ->
+      (vfy e tsec tnsec = Invalid <->
+       forall sigs pi s q, parse_parameterised_list (e_sig e) = Ok sigs -> In pi sigs ->
+                           extract_signature pi = Some s -> ~ Accepts e tsec tnsec s q).
+  Proof. exact (verify_invalid_iff H256 x509_key sig_ok status_known fetch). Qed.
+
+  Theorem C09_verify_decided :
+    forall (e : exchange) (tsec tnsec : Z),
+      e_taint e = false -> decided e -> vfy e tsec tnsec <> Undecided.
+  Proof. exact (verify_decided H256 x509_key sig_ok status_known fetch). Qed.
+
+  (* one signature: the verifier's step is the conjunction, with the window
+     spelled out arithmetically *)
+  Theorem C09_accept_one :
+    forall (e : exchange) (tsec tnsec : Z) (s : signature) (p : bytes),
+      wf_req e -> time_ok tsec tnsec -> i64 (s_date s) -> i64 (s_expires s) ->
+      url_decided (s_validity s) -> url_decided (e_uri e) ->
+      (accept1 H256 x509_key sig_ok status_known fetch e tsec tnsec s = Some p <->
+       SameOrigin (s_validity s) (e_uri e) /\
+       KeySigned H256 x509_key sig_ok fetch e s /\
+       (s_expires s - s_date s <= 604800 /\
+        s_date s * 1000000000 <= tsec * 1000000000 + tnsec /\
+        tsec * 1000000000 + tnsec <= s_expires s * 1000000000)%Z /\
+       PayloadOk H256 e s p /\
+       RequestOk e /\
+       ResponseOk status_known e /\
+       NoBanned uncached_names (e_resph e)).
+  Proof. exact (accept1_iff H256 x509_key sig_ok status_known fetch). Qed.
+
+  (* Exchange.IsCacheable is RFC 7234 section 3 for a shared cache *)
+  Theorem C09_is_cacheable_iff :
+    forall e : exchange,
+      is_cacheable status_known e = true <->
+      (let cc := hdr_value (e_resph e) (s2b "Cache-Control") in
+       status_known (e_status e) = true /\
+       ~ In (s2b "no-store") (directive_names cc) /\
+       ~ In (s2b "private") (directive_names cc) /\
+       (hdr_value (e_resph e) (s2b "Expires") <> [] \/
+        In (s2b "max-age") (directive_names cc) \/ In (s2b "s-maxage") (directive_names cc) \/
+        In (e_status e) [200; 203; 204; 206; 300; 301; 404; 405; 410; 414; 501]%Z \/
+        In (s2b "public") (directive_names cc))).
+  Proof. exact (is_cacheable_iff status_known). Qed.
+End C09.
+Print Assumptions C09_verify_iff.
+Print Assumptions C09_verify_invalid_iff.
+Print Assumptions C09_verify_decided.
+Print Assumptions C09_accept_one.
+Print Assumptions C09_is_cacheable_iff.
+
+(* the directive-name set computed by parseCacheControlDirectives is the
+   independently defined one (split at commas, trim, cut at "=", lower-case) *)
+Theorem C09_cache_directives_eq : forall cc : bytes, cache_directives cc = directive_names cc.
+Proof. exact cache_directives_eq. Qed.
+Print Assumptions C09_cache_directives_eq.
+
+(* ---- banned header names: exact lists, any letter case -------------------------------- *)
+Theorem C09_banned_lists_exact_uncached :
+  forall n : bytes,
+    is_uncached_header n = true <->
+    In (lower n)
+       (map s2b ["connection"; "keep-alive"; "proxy-connection"; "trailer"; "transfer-encoding";
+                 "upgrade"; "authentication-control"; "authentication-info"; "clear-site-data";
+                 "optional-www-authenticate"; "proxy-authenticate"; "proxy-authentication-info";
+                 "public-key-pins"; "sec-websocket-accept"; "set-cookie"; "set-cookie2";
+                 "setprofile"; "strict-transport-security"; "www-authenticate"]%string).
+Proof. exact uncached_exact. Qed.
+Theorem C09_banned_lists_exact_stateful_request :
+  forall n : bytes,
+    is_stateful_request_header n = true <->
+    In (lower n)
+       (map s2b ["authorization"; "cookie"; "cookie2"; "proxy-authorization";
+                 "sec-websocket-key"]%string).
+Proof. exact stateful_request_exact. Qed.
+Theorem C09_banned_case_insensitive :
+  forall n n' : bytes, lower n = lower n' ->
+    is_uncached_header n = is_uncached_header n' /\
+    is_stateful_request_header n = is_stateful_request_header n'.
+Proof.
+  intros n n' H. split; [apply uncached_case_insensitive|apply stateful_request_case_insensitive]; exact H.
+Qed.
+(* = the case-insensitive membership of the spec *)
+Theorem C09_is_uncached_iff :
+  forall n : bytes, is_uncached_header n = true <-> banned_in uncached_names n.
+Proof. exact is_uncached_iff. Qed.
+Theorem C09_is_stateful_request_iff :
+  forall n : bytes, is_stateful_request_header n = true <-> banned_in stateful_request_names n.
+Proof. exact is_stateful_request_iff. Qed.
+Theorem C09_verify_headers_iff :
+  forall e : exchange,
+    verify_headers e = true <->
+    NoBanned stateful_request_names (e_reqh e) /\ NoBanned uncached_names (e_resph e).
+Proof. exact verify_headers_iff. Qed.
+Print Assumptions C09_banned_lists_exact_uncached.
+Print Assumptions C09_banned_lists_exact_stateful_request.
+Print Assumptions C09_banned_case_insensitive.
+Print Assumptions C09_is_uncached_iff.
+Print Assumptions C09_is_stateful_request_iff.
+Print Assumptions C09_verify_headers_iff.
+
+Example recased_set_cookie :
+  lower (s2b "sEt-cOOkie") = lower (s2b "Set-Cookie") /\ is_uncached_header (s2b "sEt-cOOkie") = true.
+Proof. split; reflexivity. Qed.
+
+(* ---- examples: the hypotheses of verify_iff hold of the concrete exchanges -------------- *)
+(* the signature of ex3's header *)
+Definition sig_of (e : exchange) : signature :=
+  match parse_parameterised_list (e_sig e) with
+  | Ok (pi :: _) => match extract_signature pi with
+                    | Some s => s
+                    | None => {| s_sig := []; s_integrity := []; s_cert_url := []; s_cert_sha := [];
+                                 s_validity := []; s_date := 0; s_expires := 0 |}
+                    end
+  | _ => {| s_sig := []; s_integrity := []; s_cert_url := []; s_cert_sha := [];
+            s_validity := []; s_date := 0; s_expires := 0 |}
+  end.
+Definition s3 : signature := Eval vm_compute in sig_of ex3.
+
+Definition pi3 : pident :=
+  Eval vm_compute in
+    match parse_parameterised_list (e_sig ex3) with
+    | Ok (pi :: _) => pi
+    | _ => {| pi_label := []; pi_params := [] |}
+    end.
+Lemma ex3_parse : parse_parameterised_list (e_sig ex3) = Ok [pi3].
+Proof. vm_compute. reflexivity. Qed.
+Lemma ex3_extract : extract_signature pi3 = Some s3.
+Proof. vm_compute. reflexivity. Qed.
+
+Lemma ex3_decided : decided ex3.
+Proof.
+  split; [vm_compute; discriminate|].
+  intros sigs pi s Hp Hin Hex. rewrite ex3_parse in Hp. injection Hp as Hp. subst sigs.
+  destruct Hin as [Hin|[]]. subst pi. rewrite ex3_extract in Hex. injection Hex as Hex. subst s.
+  vm_compute. discriminate.
+Qed.
+Example ex3_wf : e_taint ex3 = false /\ wf_req ex3 /\ time_ok toy_date 0.
+Proof. split; [reflexivity|]. split; [intros _; reflexivity|]. unfold time_ok, toy_date. lia. Qed.
+
+(* so the policy holds of ex3's signature *)
+Example ex3_accepts : Accepts sha256 toy_x509 toy_sig_ok toy_status toy_fetch ex3 toy_date 0 s3 toy_body.
+Proof.
+  apply (accept1_iff sha256 toy_x509 toy_sig_ok toy_status toy_fetch ex3 toy_date 0 s3 toy_body).
+  - intros _. reflexivity.
+  - unfold time_ok, toy_date. lia.
+  - vm_compute. split; [discriminate|reflexivity].
+  - vm_compute. split; [discriminate|reflexivity].
+  - vm_compute. discriminate.
+  - vm_compute. discriminate.
+  - vm_compute. reflexivity.
+Qed.
+
+(* DEVIATION: the same exchange carrying a (never serialised, never signed)
+   stateful request header in memory satisfies every condition and is refused *)
+Theorem C09_b3_request_headers_refuted :
+  exists (e : exchange) (tsec tnsec : Z) (s : signature) (p : bytes),
+    e_ver e = V1b3 /\ e_taint e = false /\ time_ok tsec tnsec /\
+    (exists rest, parse_parameterised_list (e_sig e) = Ok (rest) /\
+                  exists pi, In pi rest /\ extract_signature pi = Some s) /\
+    Accepts sha256 toy_x509 toy_sig_ok toy_status toy_fetch e tsec tnsec s p /\
+    verify sha256 toy_x509 toy_sig_ok toy_status toy_fetch e tsec tnsec = Invalid.
+Proof.
+  exists (set_reqh ex3 [(s2b "Cookie", [s2b "id=1"])]), toy_date, 0%Z, s3, toy_body.
+  split; [reflexivity|]. split; [reflexivity|]. split; [unfold time_ok, toy_date; lia|].
+  split; [|split].
+  - eexists. split; [vm_compute; reflexivity|]. eexists. split; [left; reflexivity|].
+    vm_compute. reflexivity.
+  - apply accepts_b3_reqh; [reflexivity|exact ex3_accepts].
+  - vm_compute. reflexivity.
+Qed.
+Print Assumptions C09_b3_request_headers_refuted.
+
+(* ---- examples: accept / reject at the boundaries ---------------------------------------- *)
+Notation V := toy_verify.
+Definition hs (cc : list (bytes * bytes)) : list (bytes * bytes) :=
+  (s2b "Content-Type", s2b "text/html") :: cc.
+Definition cc1 (v : string) : list (bytes * bytes) := [(s2b "Cache-Control", s2b v)].
+Definition mk (v : version) (st : Z) (h : list (bytes * bytes)) (raw : headers) : exchange :=
+  get (toy_sign (plain v st h raw) toy_date toy_expires).
+Definition ok (e : exchange) : bool :=
+  match V e toy_date 0 with Valid p => bytes_eqb p toy_body | _ => false end.
+Definition rejected (e : exchange) : bool :=
+  match V e toy_date 0 with Invalid => true | _ => false end.
+
+(* the window: [date, expires] inclusive, to the nanosecond *)
+Example at_date : V ex3 toy_date 0 = Valid toy_body.
+Proof. vm_compute. reflexivity. Qed.
+Example just_before_date : V ex3 (toy_date - 1) 999999999 = Invalid.
+Proof. vm_compute. reflexivity. Qed.
+Example at_expires : V ex3 toy_expires 0 = Valid toy_body.
+Proof. vm_compute. reflexivity. Qed.
+Example one_ns_after_expires : V ex3 toy_expires 1 = Invalid.
+Proof. vm_compute. reflexivity. Qed.
+(* lifetime: 604800 s accepted (ex3), 604801 s refused even inside the window *)
+Example lifetime_7_days : (toy_expires - toy_date = 604800)%Z.
 Proof. reflexivity. Qed.
-Print Assumptions c09_smoke.
+Example lifetime_7_days_plus_1 :
+  V (get (toy_sign (plain V1b3 200 std_headers []) toy_date (toy_expires + 1))) toy_date 0 = Invalid.
+Proof. vm_compute. reflexivity. Qed.
+(* validity-url on another origin (host, scheme, port) *)
+Example other_origin_host :
+  V (get (toy_sign_v (plain V1b3 200 std_headers []) (s2b "https://evil.example/resource.validity")
+                     toy_date toy_expires)) toy_date 0 = Invalid.
+Proof. vm_compute. reflexivity. Qed.
+Example other_origin_scheme :
+  V (get (toy_sign_v (plain V1b3 200 std_headers []) (s2b "http://example.com/resource.validity")
+                     toy_date toy_expires)) toy_date 0 = Invalid.
+Proof. vm_compute. reflexivity. Qed.
+Example other_origin_port :
+  V (get (toy_sign_v (plain V1b3 200 std_headers []) (s2b "https://example.com:8443/resource.validity")
+                     toy_date toy_expires)) toy_date 0 = Invalid.
+Proof. vm_compute. reflexivity. Qed.
+
+(* shared-cache storability (b3) *)
+Example cc_max_age_no_store : rejected (mk V1b3 200 (hs (cc1 "max-age=100, no-store")) []) = true.
+Proof. vm_compute. reflexivity. Qed.
+(* two Cache-Control field values in memory: evaluated as serialised (joined) *)
+Example cc_multi_valued :
+  rejected (mk V1b3 200 (hs (cc1 "max-age=100" ++ cc1 "no-store")) []) = true.
+Proof. vm_compute. reflexivity. Qed.
+Example cc_multi_valued_ok :
+  ok (mk V1b3 302 (hs (cc1 "no-transform" ++ cc1 "s-maxage=5")) []) = true.
+Proof. vm_compute. reflexivity. Qed.
+Example cc_case_and_space : rejected (mk V1b3 200 (hs (cc1 "Max-Age=100 ,   NO-Store ")) []) = true.
+Proof. vm_compute. reflexivity. Qed.
+Example cc_private_with_arg : rejected (mk V1b3 200 (hs (cc1 "max-age=100,private=""x-a""")) []) = true.
+Proof. vm_compute. reflexivity. Qed.
+Example cc_none_status_200 : ok (mk V1b3 200 (hs []) []) = true.          (* cacheable by default *)
+Proof. vm_compute. reflexivity. Qed.
+Example cc_none_status_302 : rejected (mk V1b3 302 (hs []) []) = true.    (* not by default *)
+Proof. vm_compute. reflexivity. Qed.
+Example cc_public_status_302 : ok (mk V1b3 302 (hs (cc1 "public")) []) = true.
+Proof. vm_compute. reflexivity. Qed.
+Example expires_status_302 :
+  ok (mk V1b3 302 (hs [(s2b "Expires", s2b "Thu, 01 Dec 2033 16:00:00 GMT")]) []) = true.
+Proof. vm_compute. reflexivity. Qed.
+Example status_not_understood : rejected (mk V1b3 299 (hs (cc1 "max-age=100")) []) = true.
+Proof. vm_compute. reflexivity. Qed.
+Example no_content_type_b3 : rejected (mk V1b3 200 (cc1 "max-age=100") []) = true.
+Proof. vm_compute. reflexivity. Qed.
+(* b2 has neither requirement *)
+Example no_content_type_b2 : ok (mk V1b2 200 (cc1 "no-store") []) = true.
+Proof. vm_compute. reflexivity. Qed.
+
+(* banned response headers, in any letter case (a raw, non-canonical map key) *)
+Example banned_canonical :
+  rejected (mk V1b3 200 (hs (cc1 "max-age=100") ++ [(s2b "Set-Cookie", s2b "a=b")]) []) = true.
+Proof. vm_compute. reflexivity. Qed.
+Example banned_odd_case :
+  rejected (mk V1b3 200 (hs (cc1 "max-age=100")) [(s2b "sEt-cOOkie", [s2b "a=b"])]) = true.
+Proof. vm_compute. reflexivity. Qed.
+Example banned_hop_by_hop_b1 :
+  rejected (mk V1b1 200 (hs []) [(s2b "KEEP-alive", [s2b "timeout=5"])]) = true.
+Proof. vm_compute. reflexivity. Qed.
+Example harmless_extra_header : ok (mk V1b3 200 (hs (cc1 "max-age=100") ++ [(s2b "X-Foo", s2b "1")]) []) = true.
+Proof. vm_compute. reflexivity. Qed.
+
+(* b1/b2: method and stateful request headers *)
+Definition mkreq (v : version) (m : string) (rq : headers) : exchange :=
+  get (toy_sign (with_reqh (with_method (plain v 200 std_headers []) (s2b m)) rq) toy_date toy_expires).
+Example b2_head_ok : ok (mkreq V1b2 "HEAD" [(s2b "Accept", [s2b "*/*"])]) = true.
+Proof. vm_compute. reflexivity. Qed.
+Example b2_post_rejected : rejected (mkreq V1b2 "POST" []) = true.
+Proof. vm_compute. reflexivity. Qed.
+Example b1_cookie_rejected : rejected (mkreq V1b1 "GET" [(s2b "cOOKIE", [s2b "id=1"])]) = true.
+Proof. vm_compute. reflexivity. Qed.
+Example b2_authorization_rejected : rejected (mkreq V1b2 "GET" [(s2b "Authorization", [s2b "Basic eA=="])]) = true.
+Proof. vm_compute. reflexivity. Qed.
+
+(* KNOWN GAP w.r.t. draft 4.1: a header field listed in no-cache="..." is an
+   uncached header field; the verifier does not look (TODO in stateful_headers.go) *)
+Example no_cache_listed_header_accepted :
+  ok (mk V1b3 200 (hs (cc1 "no-cache=""x-private"", max-age=600") ++ [(s2b "X-Private", s2b "1")]) []) = true.
+Proof. vm_compute. reflexivity. Qed.
+
+(* MODEL GAP (reported, Model/ not edited): parseCacheControlDirectives uses
+   strings.TrimSpace and strings.ToLower, which are Unicode-aware; the model's
+   [is_space] / [lower] are ASCII-only.  For the values below Go trims the
+   U+00A0 (bytes C2 A0) / lower-cases U+0130 to "i", finds no-store / private
+   and REJECTS; the model accepts.  (Only header values with non-ASCII bytes
+   are affected; RFC 7230 OWS is SP / HTAB.) *)
+Example model_gap_nbsp_no_store :
+  ok (mk V1b3 200 (hs [(s2b "Cache-Control", [194; 160] ++ s2b "no-store, max-age=5")]) []) = true.
+Proof. vm_compute. reflexivity. Qed.
+Example model_gap_dotted_I_private :
+  ok (mk V1b3 200 (hs [(s2b "Cache-Control", s2b "pr" ++ [196; 176] ++ s2b "vate, max-age=5")]) []) = true.
+Proof. vm_compute. reflexivity. Qed.
